@@ -22,7 +22,7 @@ macro_rules
   | `(tactic| pyf_simp) => `(tactic| pyf_simp [])
   | `(tactic| pyf_simp [$ts,*]) => `(tactic|
       simp [binVal, unVal, binAdder, binSubtractor, binMultiplier, binDivider, binMaximizer, binMinimizer,
-        unConsumption, unProduction, PyF.add, PyF.sub, PyF.mul, PyF.neg, PyF.div, PyF.max, PyF.min, PyF.gt, PyF.lt,
+        unConsumption, unProduction, unClipper, clipVal, PyF.add, PyF.sub, PyF.mul, PyF.neg, PyF.div, PyF.max, PyF.min, PyF.gt, PyF.lt,
         PyF.ge, PyF.le, PyF.eq, PyF.ne, PyF.lit, PyF.nan, PyF.isnan, bind, Except.bind, pure, Except.pure, $ts,*])
 
 /-! ## Frame lemmas: a step only touches the top of the stack -/
